@@ -54,14 +54,17 @@ def op_strategy(draw, kind):
     op = dict(op=name)
     if name == "param":
         if kind == "thermal":
-            op.update(name=draw(st.sampled_from(["k", "c", "thickness"])), value=draw(st.integers(1, 12)) / 4.0)
+            op.update(name=draw(st.sampled_from(["k", "c", "thickness"])),
+                      value=draw(st.sampled_from([0.25, 0.75, 1.5, 3.0, 1.5 * (1 + 3e-6), 4e-9, 4e-9 * (1 + 5e-6)])))
         else:
             pn = draw(st.sampled_from(["E", "v", "thickness", "planeStress"]))
-            val = dict(E=draw(st.integers(2, 20)) / 2.0, v=draw(st.integers(0, 8)) / 20.0,
+            val = dict(E=draw(st.sampled_from([1.0, 2.5, 5.0, 10.0, 10.0 * (1 + 3e-6), 2.1e-4, 2.1e-4 * (1 + 5e-6)])), v=draw(st.integers(0, 8)) / 20.0,
                        thickness=draw(st.integers(1, 8)) / 4.0, planeStress=draw(st.booleans()))[pn]
             op.update(name=pn, value=val)
     elif name == "rho":
-        op.update(value=draw(st.integers(1, 12)) / 4.0)
+        # O(1) values, values of another unit system (tonne/mm^3) and tiny relative changes: an update must never be
+        # skipped because the new value "looks like" the old one
+        op.update(value=draw(st.sampled_from([0.25, 0.5, 1.0, 1.75, 3.0, 7.85e-9, 2.7e-9, 1.0 + 3e-6, 7.85e-9 * (1 + 4e-6)])))
     elif name == "damping":
         op.update(cm=draw(st.integers(0, 4)) / 10.0, ck=draw(st.integers(0, 4)) / 10.0)
     elif name == "translate":
@@ -220,7 +223,9 @@ def _compare_matrices(rec, live, fresh, tag, sig):
     for nm, a, b in zip("KCMF", A, B):
         a, b = orc.dense(a), orc.dense(b)
         rec.require(a.shape == b.shape, "matrix_shape", f"after {tag}: {nm} has shape {a.shape}, a fresh simulation {b.shape}", **sig)
-        sc = max(np.abs(b).max(), np.abs(a).max(), 1e-9)
+        sc = max(np.abs(b).max(), np.abs(a).max())  # no absolute floor: parameters may live in any unit system
+        if sc == 0:
+            continue
         rec.close(a - b, sc, 1e-11, "stale_" + nm, f"after {tag}: {nm} differs from a freshly built simulation "
                   f"(max|live|={np.abs(a).max():.3e}, max|fresh|={np.abs(b).max():.3e})", **sig)
     fa = np.asarray(live.simu.Bc_vector_Neumann(), float)
